@@ -69,6 +69,8 @@ def run_node(node, leaves):
         return run_node(node[2], leaves).matrix()
     if k == "Ten":
         return run_node(node[1], leaves).tensor()
+    if k == "Sum1":
+        return run_node(node[1], leaves).sum(-1, keepdim=True)
     if k == "AddE":
         return run_node(node[1], leaves) + run_node(node[2], leaves)
     if k == "ScaleE":
@@ -95,6 +97,8 @@ def node_str(node):
         return f"{k}[{node[1]}]({node_str(node[2])})"
     if k == "Ten":
         return f"ten({node_str(node[1])})"
+    if k == "Sum1":
+        return f"sum1({node_str(node[1])})"
     if k in ("AddE", "ScaleE"):
         return f"{k}({node_str(node[1])},{node_str(node[2])})"
     return f"{k}[{node[1]}]({node_str(node[2])},{node_str(node[3])})"
@@ -510,31 +514,41 @@ def fd_jacobian(case, param_values, target_free=True):
     J = torch.zeros(f0.numel(), ncols, dtype=torch.float64)
     rel = 0.0
     col0 = 0
+    ntan = sum(n * td for (_, _, n, _, td) in lay)
+    stride = max(1, ntan // 6)          # Richardson (two step sizes) on about six columns only: the reliability estimate
+    kcol = 0
+    H = 1e-5
+
+    def central(prm, flat0, kind, g, td, it, c, h):
+        vals = []
+        for sgn in (1.0, -1.0):
+            x = flat0.clone()
+            if kind == "G":
+                e = torch.zeros(td, dtype=torch.float64)
+                e[c] = sgn * h
+                X0 = pp.LieTensor(flat0[it], ltype=U.ltype(g))
+                x[it] = (pp.LieTensor(e, ltype=U.ltype(U.ALG[g])).Exp() @ X0).tensor()
+            else:
+                x[it, c] += sgn * h
+            with torch.no_grad():
+                prm.copy_(x.reshape(prm.shape))
+            vals.append(F())
+        return (vals[0] - vals[1]) / (2 * h)
+
     for pi, (kind, g, n, sd, td) in enumerate(lay):
         prm = getattr(m, names[pi])
         flat0 = base[pi].reshape(n, sd) if n * sd > 0 else base[pi].reshape(0, sd)
         for it in range(n):
             for c in range(td):
-                ds = []
-                for h in (2e-4, 1e-4):
-                    vals = []
-                    for sgn in (1.0, -1.0):
-                        x = flat0.clone()
-                        if kind == "G":
-                            e = torch.zeros(td, dtype=torch.float64)
-                            e[c] = sgn * h
-                            X0 = pp.LieTensor(flat0[it], ltype=U.ltype(g))
-                            x[it] = (pp.LieTensor(e, ltype=U.ltype(U.ALG[g])).Exp() @ X0).tensor()
-                        else:
-                            x[it, c] += sgn * h
-                        with torch.no_grad():
-                            prm.copy_(x.reshape(prm.shape))
-                        vals.append(F())
-                    ds.append((vals[0] - vals[1]) / (2 * h))
-                d = (4 * ds[1] - ds[0]) / 3
+                d1 = central(prm, flat0, kind, g, td, it, c, H)
+                d = d1
+                if kcol % stride == 0:
+                    d2 = central(prm, flat0, kind, g, td, it, c, 2 * H)
+                    d = (4 * d1 - d2) / 3
+                    sc = max(1.0, float(d.abs().max()))
+                    rel = max(rel, float((d1 - d2).abs().max()) / sc)
+                kcol += 1
                 J[:, col0 + it * sd + c] = d
-                sc = max(1.0, float(d.abs().max()))
-                rel = max(rel, float((ds[1] - ds[0]).abs().max()) / sc)
         with torch.no_grad():
             prm.copy_(base[pi].reshape(prm.shape))
         col0 += n * sd
